@@ -197,9 +197,9 @@ class Quantity:
         elif ufunc==np.power:
             return Quantity(ufunc(inputs[0].magnitude.value,inputs[1]), inputs[0].baseunits*inputs[1])
         elif ufunc in [np.sin, np.cos, np.tan]:
-            return Quantity(ufunc(inputs[0].to('rad').magnitude.value))
+            return Quantity(ufunc(inputs[0].value('rad')))
         elif ufunc in [np.arcsin, np.arccos, np.arctan]:
-            return Quantity(ufunc(inputs[0].to(None).magnitude.value),'rad')
+            return Quantity(ufunc(self._convert(inputs[0].magnitude, inputs[0].baseunits, BaseUnits(None)).value),'rad')
         elif ufunc in [np.isnan, np.isnat]:
             return ufunc(inputs[0].magnitude.value)
         else:
